@@ -23,8 +23,8 @@ def jobs(tier):
         for ivl in ([None, '1/100', '19/100'] if q else [None, '1/100', '1/20', '1/10', '19/100']):
             J('h_orig_bam', L=L, interval=ivl)
     if not q:
-        J('h_resp_cmdt', L=1785, windows=255)
-        J('h_resp_cmdt', L=400)
+        J('h_resp_cmdt', L=1785, windows=255, gap='1/100', limit=16)
+        J('h_resp_cmdt', L=140)
     from . import tpref22
     out += tpref22.jobs('C09', tier)
     return out
